@@ -410,7 +410,10 @@ def evaluate__cast_expressions(self: XPathToken, context: ta.ContextType = None)
                     raise self.error('XPTY0004', "Non literal string to QName cast")
 
             token = token_class(self.parser)
-            value = token.cast(arg)
+            if isinstance(arg, UntypedAtomic):
+                value = token.cast(arg.value)
+            else:
+                value = token.cast(arg)
 
     except ElementPathError:
         if self.symbol != 'cast':
